@@ -386,7 +386,44 @@ def inline_helpers(tree, modname, ref, rounds=3):
             break
     if total:
         _drop_dead_helpers(tree, modname, known)
+        _drop_identity_assignments(tree)
     return total
+
+
+def _drop_identity_assignments(tree):
+    """`fmt, out = (fmt, out)` and `k = k`, left behind where a helper's
+    return value carried the caller's own names"""
+    for node in ast.walk(tree):
+        for fld in ("body", "orelse", "finalbody"):
+            lst = getattr(node, fld, None)
+            if not isinstance(lst, list) or not lst or not isinstance(
+                    lst[0], ast.stmt):
+                continue
+            keep = []
+            for st in lst:
+                if isinstance(st, ast.Assign) and len(st.targets) == 1:
+                    t, v = st.targets[0], st.value
+                    if isinstance(t, ast.Tuple) and isinstance(
+                            v, ast.Tuple) and len(t.elts) == len(v.elts):
+                        pairs = [(a, b) for a, b in zip(t.elts, v.elts)
+                                 if ast.unparse(a) != ast.unparse(b)]
+                        if not pairs:
+                            continue
+                        if len(pairs) < len(t.elts) and all(
+                                isinstance(b, (ast.Name, ast.Constant,
+                                               ast.Attribute))
+                                for _, b in pairs):
+                            for a, b in pairs:
+                                keep.append(ast.copy_location(ast.Assign(
+                                    targets=[a], value=b), st))
+                            continue
+                    elif ast.unparse(t) == ast.unparse(v):
+                        continue
+                keep.append(st)
+            if not keep:
+                keep = [ast.copy_location(ast.Pass(), lst[0])]
+            lst[:] = keep
+    ast.fix_missing_locations(tree)
 
 
 def _drop_dead_helpers(tree, modname, known):
@@ -550,6 +587,42 @@ def _inline_in_function(func, owner, classes, modfuncs, known):
                         ast.fix_missing_locations(s)
                     return pro + new
             return None
+        # T.extend(helper(args)) with a helper that builds and returns a list
+        if isinstance(st, ast.Expr) and isinstance(st.value, ast.Call) \
+                and isinstance(st.value.func, ast.Attribute) \
+                and st.value.func.attr == "extend" \
+                and len(st.value.args) == 1 and not st.value.keywords:
+            r = helper_of(st.value.args[0])
+            if r is not None and not _is_generator(r[0]) and not isinstance(
+                    r[0], ast.AsyncFunctionDef):
+                pb = _prepare_body(r[0], st.value.args[0], r[1])
+                if pb is not None:
+                    pro, body = pb
+                    if len(body) >= 2 and isinstance(body[0], ast.Assign) \
+                            and len(body[0].targets) == 1 and isinstance(
+                                body[0].targets[0], ast.Name) and isinstance(
+                                    body[0].value, ast.List) and not \
+                            body[0].value.elts and isinstance(
+                                body[-1], ast.Return) and isinstance(
+                                    body[-1].value, ast.Name) and \
+                            body[-1].value.id == body[0].targets[0].id:
+                        acc = body[0].targets[0].id
+                        uses = [x for b in body[1:-1] for x in ast.walk(b)
+                                if isinstance(x, ast.Name) and x.id == acc]
+                        calls = [x for b in body[1:-1] for x in ast.walk(b)
+                                 if isinstance(x, ast.Call) and isinstance(
+                                     x.func, ast.Attribute) and x.func.attr
+                                 in ("append", "extend") and isinstance(
+                                     x.func.value, ast.Name)
+                                 and x.func.value.id == acc]
+                        rets = [x for b in body[1:-1] for x in ast.walk(b)
+                                if isinstance(x, ast.Return)]
+                        if len(uses) == len(calls) and not rets:
+                            t = _ParamSubst({acc: st.value.func.value})
+                            new = [t.visit(b) for b in body[1:-1]]
+                            for b in new:
+                                ast.fix_missing_locations(b)
+                            return pro + new
         value = None
         kind = None
         if isinstance(st, ast.Expr):
